@@ -1,9 +1,199 @@
-(* Props/C18.v — placeholder while the proofs are being built *)
+(* Props/C18.v — property C18: script and language select the font's script and language-system
+   records.  Only statements, each closed by `exact`, with Print Assumptions beneath.
+   The model (Model/Tag.v) reads the registry, the complex-language rules, the script tables, the
+   select_script fallback list and five code-shape constants from Gen/LangTable.v, which the
+   translator regenerates from /repo/src on every run: when the code regresses, the `eq_refl`
+   arguments below stop type-checking. *)
 From Coq Require Import List NArith Bool.
 From RB Require Import Base.Bytes Gen.LangTable Model.Tag Proofs.TagP.
 Import ListNotations.
 Local Open Scope N_scope.
 
-Theorem C18_placeholder : lang_table_rows = N.of_nat nrows.
-Proof. vm_compute. reflexivity. Qed.
-Print Assumptions C18_placeholder.
+(* ------------------------------------------------------------------ the registry *)
+
+(* sorted w.r.t. the comparison the binary search uses: complete enumeration of the
+   nrows * (nrows - 1) / 2 pairs of the generated table *)
+Theorem C18_registry_sorted : forall i j, (i < j)%nat -> (j < nrows)%nat ->
+  lang_cmp (fst (row_at i)) (fst (row_at j)) = Some Lt \/ lang_cmp (fst (row_at i)) (fst (row_at j)) = Some Eq.
+Proof. exact registry_sorted_or. Qed.
+Print Assumptions C18_registry_sorted.
+
+(* every language string of the registry (all nrows rows, complete enumeration) reaches the FIRST tag
+   registered for it — or no tag when that row carries the null tag — for ANY result the binary
+   search may return for its probe string (any index whose comparison is Equal; "not found" only if
+   no row is Equal; a panic only if some comparison panics), with any script *)
+Theorem C18_registry_hits : forall srch, (forall sub, search_ok sub (srch sub)) ->
+  forall l t, In (l, t) lang_table ->
+  forall sc, exists st lt, tags_gen srch sc (Some l) = Some (st, lt) /\ hd_error lt = first_registered l.
+Proof. exact registry_hits. Qed.
+Print Assumptions C18_registry_hits.
+
+(* the executable search (first Equal row) satisfies the contract, so the statement covers `tags` *)
+Theorem C18_registry_hits_exec : forall l t, In (l, t) lang_table ->
+  forall sc, exists st lt, tags sc (Some l) = Some (st, lt) /\ hd_error lt = first_registered l.
+Proof. exact registry_hits_exec. Qed.
+Print Assumptions C18_registry_hits_exec.
+
+(* ------------------------------------------------------------------ script tags and their order *)
+
+(* OpenType script-tag registry: the nine Indic scripts with a second-generation shaping model
+   (tags 'xxx2', and 'xxx3' tried first), Myanmar ('mym2', no 'mym3'), and the five ISO 15924 codes whose
+   OpenType tag is not the lower-cased code.  Tags are big-endian u32. *)
+Definition TWO_GENERATIONS : list (N * N) :=
+  [ (1113943655, 1651402546)  (* Beng bng2 *); (1147500129, 1684370994)  (* Deva dev2 *);
+    (1198877298, 1735029298)  (* Gujr gjr2 *); (1198879349, 1735750194)  (* Guru gur2 *);
+    (1265525857, 1802396722)  (* Knda knd2 *); (1298954605, 1835822386)  (* Mlym mlm2 *);
+    (1332902241, 1869773106)  (* Orya ory2 *); (1415671148, 1953328178)  (* Taml tml2 *);
+    (1415933045, 1952803890)  (* Telu tel2 *) ].
+Definition V2_ONLY : list (N * N) := [ (1299803506, 1836674354) (* Mymr mym2 *) ].
+Definition OLD_EXCEPTIONS : list (N * N) :=
+  [ (1214870113, 1801547361)  (* Hira kana *); (1281453935, 1818324768)  (* Laoo 'lao ' *);
+    (1500080489, 2036932640)  (* Yiii 'yi  ' *); (1315663727, 1852534560)  (* Nkoo 'nko ' *);
+    (1449224553, 1986095392)  (* Vaii 'vai ' *) ].
+
+(* for EVERY script tag: newest generation first, then the old tag (the ISO code with a lower-case
+   first letter, or the exception) *)
+Theorem C18_script_tags : forall sc,
+  all_tags_from_script (Some sc) = spec_script_tags TWO_GENERATIONS V2_ONLY OLD_EXCEPTIONS sc.
+Proof. exact (fun sc => all_tags_spec TWO_GENERATIONS V2_ONLY OLD_EXCEPTIONS sc eq_refl eq_refl eq_refl eq_refl). Qed.
+Print Assumptions C18_script_tags.
+
+(* for ANY font script list and any script tags: the selected script record is the first present
+   among the tags followed by DFLT, dflt, latn; `found` tells whether it is one of the script's own *)
+Theorem C18_script_order : forall ly tags,
+  option_map (fun r => (snd (fst r), snd r)) (select_script ly tags)
+    = first_index (map fst (ly_scripts ly)) (tags ++ [TAG_DFLT; TAG_dflt; TAG_latn])
+  /\ (forall r, select_script ly tags = Some r ->
+        fst (fst r) = match first_index (map fst (ly_scripts ly)) tags with Some _ => true | None => false end).
+Proof. exact select_script_order. Qed.
+Print Assumptions C18_script_order.
+
+(* what "first present" means *)
+Theorem C18_first_index_meaning : forall keys cands,
+  match first_index keys cands with
+  | Some (i, t) => nth_error keys i = Some t /\
+                   exists pre post, cands = pre ++ t :: post /\ (forall x, In x pre -> ~ In x keys)
+  | None => forall x, In x cands -> ~ In x keys
+  end.
+Proof. exact first_index_meaning. Qed.
+Print Assumptions C18_first_index_meaning.
+
+(* ------------------------------------------------------------------ language system and features *)
+
+(* for ANY script record: the first existing language system among the language's tags, then a
+   'dflt' record; None = the script's default language system is used *)
+Theorem C18_lang_order : forall ly sidx ltags tag sr,
+  nth_error (ly_scripts ly) sidx = Some (tag, sr) ->
+  select_script_language ly sidx ltags = option_map fst (first_index (map fst (sc_langs sr)) (ltags ++ [TAG_dflt]))
+  /\ forall lidx, sys_of ly sidx lidx =
+       match lidx with Some i => option_map snd (nth_error (sc_langs sr) i) | None => sc_default sr end.
+Proof. exact lang_order. Qed.
+Print Assumptions C18_lang_order.
+
+(* exactly the features listed by the selected language system (for the requested tags: the first
+   listed feature carrying the tag) take part, and its required feature always does *)
+Theorem C18_features : forall ly stags ltags requested found sidx tag i,
+  select_script ly stags = Some (found, sidx, tag) ->
+  let lidx := select_script_language ly sidx ltags in
+  In i (active_features ly stags ltags requested) <->
+    (exists t, required_feature ly sidx lidx = Some (i, t)) \/
+    (exists sys t, sys_of ly sidx lidx = Some sys /\ In t requested /\
+                   find_in_feats (ly_feats ly) (ls_feats sys) t = Some i).
+Proof. exact active_features_spec. Qed.
+Print Assumptions C18_features.
+
+Theorem C18_features_required : forall ly sidx lidx i t,
+  required_feature ly sidx lidx = Some (i, t) <->
+  exists sys, sys_of ly sidx lidx = Some sys /\ ls_req sys = Some i /\ nth_error (ly_feats ly) i = Some t.
+Proof. exact required_feature_spec. Qed.
+Print Assumptions C18_features_required.
+
+Theorem C18_features_listed : forall feats ftag idxs,
+  match find_in_feats feats idxs ftag with
+  | Some i => In i idxs /\ nth_error feats i = Some ftag
+  | None => forall i, In i idxs -> nth_error feats i <> Some ftag
+  end.
+Proof. exact find_in_feats_meaning. Qed.
+Print Assumptions C18_features_listed.
+
+Theorem C18_no_script_no_features : forall ly stags ltags requested,
+  select_script ly stags = None -> active_features ly stags ltags requested = [].
+Proof. exact active_features_none. Qed.
+Print Assumptions C18_no_script_no_features.
+
+(* ------------------------------------------------------------------ private use, case, totality *)
+
+(* an `-hbot` private-use tag is the only language tag, an `-hbsc` one the only script tag, whatever
+   the rest of the language string and the buffer's script say *)
+Theorem C18_private_use : forall srch sc lang pv prefix scr lg,
+  split_language lang = Some (Some pv, prefix) ->
+  parse_private (Some pv) HBSC lower_b = Some scr ->
+  parse_private (Some pv) HBOT upper_b = Some lg ->
+  (forall t, lg = Some t -> exists st, tags_of_language srch sc lang = Some (st, [t])) /\
+  (forall s, scr = Some s -> tags_of_language srch sc lang = None \/ exists lt, tags_of_language srch sc lang = Some ([s], lt)) /\
+  (scr = None -> tags_of_language srch sc lang = None \/ exists lt, tags_of_language srch sc lang = Some (all_tags_from_script sc, lt)).
+Proof. exact private_use_override. Qed.
+Print Assumptions C18_private_use.
+
+(* "x-hbot" / "x-hbsc" + one to four alphanumerics (upper- resp. lower-cased, space padded) *)
+Theorem C18_private_use_x : forall pat norm body rest,
+  (pat = HBOT \/ pat = HBSC) ->
+  body <> [] -> forallb is_alnum body = true -> (length body <= 4)%nat ->
+  (length body = 4%nat \/ rest = [] \/ exists c r, rest = c :: r /\ is_alnum c = false) ->
+  split_language (120 :: pat ++ body ++ rest) = Some (Some (120 :: pat ++ body ++ rest), []) /\
+  parse_private (Some (120 :: pat ++ body ++ rest)) pat norm = Some (Some (dflt_quirk (tag_lossy (map norm body)))).
+Proof. exact private_use_x. Qed.
+Print Assumptions C18_private_use_x.
+
+(* language tags are matched case-insensitively: two strings equal up to ASCII case give the same
+   result (for ALL strings, any script, any search) *)
+Theorem C18_case : forall srch sc a b, lower a = lower b -> tags_gen srch sc (Some a) = tags_gen srch sc (Some b).
+Proof. exact (fun srch sc a b => tags_gen_case srch sc a b eq_refl). Qed.
+Print Assumptions C18_case.
+
+(* no panic for any well-formed UTF-8 language string, any script string, any search that does not
+   itself panic — and the comparisons of the executable search never do *)
+Theorem C18_total : forall srch sc lang,
+  (forall sub, srch sub <> None) -> utf8_valid lang = true -> tags_gen srch sc (Some lang) <> None.
+Proof. exact (fun srch sc lang Hs Hv => tags_gen_total srch sc lang eq_refl Hs Hv). Qed.
+Print Assumptions C18_total.
+
+Theorem C18_total_exec : forall sc lang, utf8_valid lang = true -> tags sc (Some lang) <> None.
+Proof. exact (fun sc lang => tags_total sc lang eq_refl eq_refl). Qed.
+Print Assumptions C18_total_exec.
+
+Theorem C18_lang_cmp_total : forall a b, lang_cmp a b <> None.
+Proof. exact (fun a b => lang_cmp_total a b eq_refl). Qed.
+Print Assumptions C18_lang_cmp_total.
+
+(* ------------------------------------------------------------------ non-vacuity *)
+
+(* strings are spelled as byte lists: zzj, mo, aba, ZH-Hant-HK, Deva / en-US, Mymr, Latn / en-x-hbotabc-hbscdev2 *)
+Example C18_ex_registry : Nat.ltb 1000 nrows = true
+  /\ tags None (Some [122; 122; 106]) = Some ([], [1514684704])                                (* last row: 'ZHA ' *)
+  /\ tags None (Some [109; 111]) = Some ([], [1297042464; 1380928800])                      (* 'MOL ', 'ROM ' *)
+  /\ tags None (Some [97; 98; 97]) = Some ([], [])                                           (* null row *)
+  /\ tags None (Some [90; 72; 45; 72; 97; 110; 116; 45; 72; 75]) = Some ([], [1514686496])                          (* 'ZHH ' *)
+  /\ tags (Some [68; 101; 118; 97]) (Some [101; 110; 45; 85; 83]) = Some ([1684370995; 1684370994; 1684371041], [1162757920])
+  /\ tags (Some [77; 121; 109; 114]) None = Some ([1836674354; 1836674418], [])
+  /\ tags (Some [76; 97; 116; 110]) (Some [101; 110; 45; 120; 45; 104; 98; 111; 116; 97; 98; 99; 45; 104; 98; 115; 99; 100; 101; 118; 50]) = Some ([1684370994], [1094861600]).
+Proof. vm_compute. repeat split. Qed.
+
+(* a string with a two-byte character right after the dash: well-formed, and not a panic *)
+Example C18_ex_total : utf8_valid [97; 45; 195; 169] = true /\ tags None (Some [97; 45; 195; 169]) = Some ([], [])
+  /\ utf8_valid [122; 97; 195; 169] = true /\ tags None (Some [122; 97; 195; 169]) = Some ([], [])
+  /\ utf8_valid [195] = false.
+Proof. vm_compute. repeat split. Qed.
+
+Example C18_ex_select :
+  let sys f := {| ls_req := Some 0%nat; ls_feats := f |} in
+  let ly := {| ly_scripts := [(TAG_DFLT, {| sc_default := Some (sys [1%nat]); sc_langs := [] |});
+                              (1684370994, {| sc_default := Some (sys [2%nat]); sc_langs := [(1162757920, sys [1%nat; 2%nat])] |});
+                              (TAG_latn, {| sc_default := None; sc_langs := [] |})];
+               ly_feats := [2054847098; 1667460464; 1818649964] |} in
+  select_script ly [1684370995; 1684370994; 1684371041] = Some (true, 1%nat, 1684370994)
+  /\ select_script ly [1635017058] = Some (false, 0%nat, TAG_DFLT)
+  /\ select_script_language ly 1 [1162757920] = Some 0%nat
+  /\ active_features ly [1684370995; 1684370994; 1684371041] [1162757920] [1667460464; 1818649964; 1801810542] = [0%nat; 1%nat; 2%nat]
+  /\ active_features ly [1684370995; 1684370994; 1684371041] [] [1667460464; 1818649964] = [0%nat; 2%nat].
+Proof. vm_compute. repeat split. Qed.
